@@ -141,6 +141,23 @@ Fixpoint utf16_decode_words (ws : list N) : list N :=
 Definition M_utf16_decode (b : list N) : list N :=
   map fix_rune (utf16_decode_words (words_of_bytes b)).
 
+(* well-formed UTF-16 (Unicode D89/D91): 16-bit units, every high surrogate
+   followed by a low one, no other surrogates *)
+Fixpoint wf_utf16_words (ws : list N) : bool :=
+  match ws with
+  | [] => true
+  | w :: tl =>
+      if is_high w then
+        match tl with
+        | l :: rest => is_low l && wf_utf16_words rest
+        | [] => false
+        end
+      else if is_low w then false
+      else (w <? 65536) && wf_utf16_words tl
+  end.
+Definition wf_utf16be (b : list N) : bool :=
+  bytes_ok b && Nat.even (length b) && wf_utf16_words (words_of_bytes b).
+
 (* ------------------------------------------------------------------ *)
 (* post table (post/post.go)                                           *)
 
